@@ -6,7 +6,7 @@
 #   tools/mutlab.sh sub <file> <old> <new> <checks...> textual substitution, run, revert
 #   tools/mutlab.sh tests              run the repository's own suite in the worktree (as it stands)
 #   tools/mutlab.sh teardown           remove everything
-LAB=/tmp/mutlab
+LAB="${MUTLAB:-/tmp/mutlab}"
 sync_verif() {
     mkdir -p $LAB/verif
     rsync -a --delete --exclude target --exclude .git --exclude replays --exclude evidence /verif/ $LAB/verif/
